@@ -410,6 +410,11 @@ func (w *fdWalker) errTemp(list []ast.Stmt, i int) {
 	if os.Getenv("CTVERIF_C10_DEBUG") != "" && why != "" && why != "-" {
 		fmt.Println("errTemp", w.fn, w.s.fork, why)
 	}
+	// an error temporary that is copied to its target afterwards (rules_t5c10.go)
+	why = w.errTempCopy(list, i)
+	if os.Getenv("CTVERIF_C10_DEBUG") != "" && why != "" && why != "-" {
+		fmt.Println("errTempCopy", w.fn, w.s.fork, why)
+	}
 }
 
 func (w *fdWalker) errTemp0(list []ast.Stmt, i int) string {
